@@ -7,6 +7,7 @@ import (
 
 	"github.com/go-kid/ioc/app"
 	cd "github.com/go-kid/ioc/component_definition"
+	"github.com/go-kid/ioc/configure/loader"
 	"github.com/go-kid/ioc/container"
 	"github.com/go-kid/ioc/container/factory"
 	"github.com/go-kid/ioc/container/processors"
@@ -94,6 +95,28 @@ type TagScanner struct {
 }
 
 func (*TagScanner) Naming() string { return "zz-tagscanner" }
+
+// ValueScanner supplies `value` tags (configuration properties) per instance the same way.
+type ValueScanner struct {
+	processors.DefaultTagScanDefinitionRegistryPostProcessor
+}
+
+func (*ValueScanner) Naming() string { return "zz-valuescanner" }
+
+func NewValueScanner(tags map[string]map[string]string) *ValueScanner {
+	s := &ValueScanner{}
+	s.NodeType = cd.PropertyTypeConfiguration
+	s.Required = true
+	s.ExtractHandler = func(meta *cd.Meta, field *cd.Field) (string, string, bool) {
+		n := NodeOf(meta.Raw)
+		if n == nil {
+			return "", "", false
+		}
+		tv, ok := tags[n.Nm][field.StructField.Name]
+		return "value", tv, ok
+	}
+	return s
+}
 
 func NewTagScanner(tags map[string]map[string]string) *TagScanner {
 	s := &TagScanner{}
@@ -250,6 +273,7 @@ type GraphProg struct {
 	Kinds   string  `json:"kinds,omitempty"`
 	Choices []int   `json:"choices,omitempty"`
 	Family  string  `json:"family,omitempty"`
+	Config  bool    `json:"config,omitempty"` // bind slot V0 of every node from configuration (value tag)
 }
 
 // Name of node i in a program with n nodes: creation order is alphabetical, so names are ordered
@@ -414,6 +438,19 @@ func RunGraph(p *GraphProg, ch *envx.Chooser) *GraphObs {
 		comps = append(comps, o.Comps...)
 	}
 	comps = append(comps, NewTagScanner(tags))
+	var opts []app.SettingOption
+	if p.Config {
+		vt := map[string]map[string]string{}
+		var sb strings.Builder
+		sb.WriteString("cfg:\n")
+		for i := 0; i < p.N; i++ {
+			nm := Name(i, p.N)
+			vt[nm] = map[string]string{"V0": "${cfg." + nm + "}"}
+			sb.WriteString("  " + nm + ": v-" + nm + "\n")
+		}
+		comps = append(comps, NewValueScanner(vt))
+		opts = append(opts, app.SetConfigLoader(loader.NewRawLoader([]byte(sb.String()))))
+	}
 	anyWrap := false
 	for _, w := range p.Wrap {
 		if w != WrapNone {
@@ -462,7 +499,8 @@ func RunGraph(p *GraphProg, ch *envx.Chooser) *GraphObs {
 				panic(r)
 			}
 		}()
-		o.Err = s.Run(app.SetFactory(factory.NewWithRegistries(nil, o.Trace.Wrap)), app.SetComponents(comps...))
+		opts = append(opts, app.SetFactory(factory.NewWithRegistries(nil, o.Trace.Wrap)), app.SetComponents(comps...))
+		o.Err = s.Run(opts...)
 	})
 	if o.OK() {
 		o.Fin = make([]any, p.N)
